@@ -74,7 +74,7 @@ fn example_for(rng: &mut Rng, rule: &Value) -> Value {
     }
     let mut ex = json!({
         "url": url,
-        "method": match s["methods"].as_array() { Some(ms) if !ms.is_empty() && rng.coin() => ms[0].clone(), _ => if rng.coin() { Value::Null } else { json!("GET") } },
+        "method": match s["methods"].as_array() { Some(ms) if !ms.is_empty() && rng.chance(2, 3) => ms[rng.below(ms.len())].clone(), _ => if rng.coin() { Value::Null } else { json!("GET") } },
         "headers": if headers.is_empty() { Value::Null } else { json!(headers) },
         "ip_address": if s["ips"].is_array() || rng.chance(1, 5) { json!(rng.pick_str(&["10.1.2.3", "8.8.8.8", "2001:db8:1::5"])) } else { Value::Null },
         "response_status_code": match (s["response_status_codes"].as_array(), rng.below(4)) {
@@ -200,8 +200,17 @@ impl World for W1A {
             max_hops: *rng.pick(&[1u8, 2, 3, 5, 10]),
             project_domains: rng.pick(&[vec![], vec![], vec!["example.com".to_string()], vec!["other.org".to_string(), "example.com".to_string()]]).clone(),
             explain,
-            impact_rule: rng.below(rules.len()),
-            impact_action: rng.pick_str(&["add", "update", "delete"]),
+            impact_rule: {
+                // three times out of four the impacted rule is (a version of) a rule the router already holds: that
+                // is where the incremental analysis removes and re-inserts
+                let live_versions: Vec<usize> = (0..rules.len()).filter(|k| live.contains_key(rules[*k]["id"].as_str().unwrap_or(""))).collect();
+                if !live_versions.is_empty() && rng.chance(3, 4) {
+                    live_versions[rng.below(live_versions.len())]
+                } else {
+                    rng.below(rules.len())
+                }
+            },
+            impact_action: rng.pick_str(&["add", "update", "delete", "update", "delete"]),
             with_loop: rng.coin(),
             rules,
             order_seed: rng.next_u64(),
